@@ -87,6 +87,10 @@ def cases(tier, seed):
                   "timeout", "map>retry"):
         for ckind in ("value", "exc"):
             out.append({"name": "internal.race/%s/%s" % (entry, ckind), "kind": "irace", "entry": entry, "ckind": ckind, "cap": None})
+    for entry in ("poll", "map", "retry", "throttle", "timeout"):
+        for ckind in ("value", "exc"):
+            out.append({"name": "internal.race-instr/%s/%s" % (entry, ckind), "kind": "irace", "entry": entry, "ckind": ckind, "cap": None,
+                        "gran": "instr"})
     for op in ("cancel_queued_last", "cancel_queued_first", "submit", "complete"):
         for op2 in ("submit", "cancel_queued_last", "cancel_queued_first", "complete"):
             if op != op2 or op == "submit":
@@ -773,7 +777,8 @@ def run_irace(case, res):
                 if isinstance(r, BaseException):
                     res_.violation("exception-escaped/cancel/%s" % type(r).__name__, "%s: cancel() raised %r" % (label, r))
             for (name, e) in ctx.p.add_errors:
-                res_.violation("exception-escaped/add_done_callback/%s" % type(e).__name__, "%s: add_done_callback raised %r" % (label, e))
+                api = name if name in ("running", "done", "cancelled") else "add_done_callback"
+                res_.violation("exception-escaped/%s/%s" % (api, type(e).__name__), "%s: %s() raised %r" % (label, api, e))
             for a in (info.get("victim"), info.get("iact")):
                 if a is not None and a.error is not None and not isinstance(a.error, (instr.DeadlockBroken, instr.CaseAbort)):
                     res_.violation("exception-escaped/%s/%s" % (a.role, type(a.error).__name__), "%s: %r" % (label, a.error),
@@ -782,8 +787,9 @@ def run_irace(case, res):
                 res_.key("irace", case["entry"], case["ckind"], self.a, self.b, info.get("site"))
             res_.count("internal_races_judged")
 
-    for a, b in (("complete", "cancel"), ("cancel", "complete"), ("complete", "add_cb"), ("cancel", "cancel")):
-        Sweep(Scn(case["entry"], case["ckind"], a, b), res, "vt", case["name"]).run(case["cap"], rng, per_site=2)
+    pairs = [("complete", "cancel"), ("cancel", "complete"), ("complete", "add_cb"), ("cancel", "cancel"), ("query", "complete")]
+    for a, b in pairs:
+        Sweep(Scn(case["entry"], case["ckind"], a, b), res, "vt", case["name"], gran=case.get("gran")).run(case["cap"], rng, per_site=2)
         if harness.need_recycle():
             return
 
